@@ -86,6 +86,11 @@ def run_kind(ctx, kind, loop):
             decoy.register_namespace(nsobj)
             ctx.count('re_registrations')
         target.register_namespace(nsobj)
+        if reg in ('/', '/x/y', 'noslash'):
+            # set-up code that runs twice registers the same object with the
+            # same owner again: it stays bound to it
+            target.register_namespace(nsobj)
+            ctx.count('idempotent_re_registrations')
         if reg in ('/reg', '/é'):
             # a registration attempt that is refused (an owner of the other
             # concurrency flavour) leaves the object with the owner it is
